@@ -187,12 +187,12 @@ def convertElement (var : VarCore) (v : Val) : Except Err (List Ev) := do
 mutual
 
 /-- `convert_dataclass` -/
-def genObj (e : BEnv) (Γ : Ctx) (cfg : SerCfg) : Nat → Val → Option QN → Bool → Option QN → Except Err (List Ev)
-  | 0, _, _, _, _ => .error (.unsupported "fuel")
-  | fuel + 1, v, qname, nillable, xsiTypeV =>
+def genObj (e : BEnv) (Γ : Ctx) (cfg : SerCfg) : Nat → Val → Option Str → Option QN → Bool → Option QN → Except Err (List Ev)
+  | 0, _, _, _, _, _ => .error (.unsupported "fuel")
+  | fuel + 1, v, pns, qname, nillable, xsiTypeV =>
     match v with
     | .obj cls fields => do
-      let m ← Γ.fetch cls none
+      let m ← Γ.fetch cls pns none
       let qname := match qname with
         | some q => if q.isEmpty then m.qname else q
         | none => m.qname
@@ -217,6 +217,10 @@ def genValue (e : BEnv) (Γ : Ctx) (cfg : SerCfg) : Nat → Val → XmlVar → O
       | .list xs => do
         let parts ← xs.mapM (fun x => genAnyType e Γ cfg fuel x var ns)
         return parts.flatten
+      | .prim (.str s) => do
+        -- `for value in values` over a `str` yields its characters
+        let parts ← s.mapM (fun c => genAnyType e Γ cfg fuel (.prim (.str [c])) var ns)
+        return parts.flatten
       | _ => .error (.leaked "TypeError")
     else if var.isText then do
       let d ← encodePrimitive v
@@ -228,6 +232,9 @@ def genValue (e : BEnv) (Γ : Ctx) (cfg : SerCfg) : Nat → Val → XmlVar → O
         | .list (.list x :: rest) => do
           let parts ← (.list x :: rest).mapM (fun val => convertElement var.toVarCore val)
           return parts.flatten
+        | .prim (.int _) | .prim (.bool _) =>
+          -- `value[0]` on a truthy scalar (a tokens field inside a `sequence` group)
+          if v.truthy then .error (.leaked "TypeError") else convertElement var.toVarCore v
         | _ => convertElement var.toVarCore v
       else .ok []
     else if var.isElements then
@@ -265,8 +272,8 @@ def genAnyType (e : BEnv) (Γ : Ctx) (cfg : SerCfg) : Nat → Val → XmlVar →
       -- convert_derived_element
       match value with
       | .obj cls _ => do
-        let m ← Γ.fetch cls none
-        genObj e Γ cfg fuel value (some qname) false (realXsiType qname m.targetQName)
+        let m ← Γ.fetch cls none none
+        genObj e Γ cfg fuel value ns (some qname) false (realXsiType qname m.targetQName)
       | .prim p => do
         let d ← encodePrimitive value
         return [Ev.start qname, Ev.attr xsiType (.prim (.qname (datatypeOf p))), Ev.data d, Ev.end qname]
@@ -279,11 +286,11 @@ def genAnyType (e : BEnv) (Γ : Ctx) (cfg : SerCfg) : Nat → Val → XmlVar →
           if choice.kind = .element && !choice.mixed && !choice.tokens then
             genXsiElement e Γ cfg fuel v cls choice ns
           else .error (.unsupported "wildcard choice kind")
-        | none => genObj e Γ cfg fuel v none false none
+        | none => genObj e Γ cfg fuel v ns none false none
       else if var.isElement then genXsiElement e Γ cfg fuel v cls var.toVarCore ns
       else do
-        let m ← Γ.fetch cls none
-        genObj e Γ cfg fuel v m.targetQName false none
+        let m ← Γ.fetch cls ns none
+        genObj e Γ cfg fuel v none m.targetQName false none
     | _ =>
       if var.isElement then convertElement var.toVarCore v
       else do
@@ -293,20 +300,20 @@ def genAnyType (e : BEnv) (Γ : Ctx) (cfg : SerCfg) : Nat → Val → XmlVar →
 /-- the `var.is_element` branch of `convert_xsi_type` (with `xsi_type`) -/
 def genXsiElement (e : BEnv) (Γ : Ctx) (cfg : SerCfg) : Nat → Val → ClassId → VarCore → Option Str → Except Err (List Ev)
   | 0, _, _, _, _ => .error (.unsupported "fuel")
-  | fuel + 1, v, cls, var, _ns => do
+  | fuel + 1, v, cls, var, ns => do
     let xt ←
       if var.types.contains (.cls cls) then pure none
       else
         match var.clazz with
         | some c =>
           if Γ.isDerived cls c then do
-            let m ← Γ.fetch cls none
+            let m ← Γ.fetch cls ns none
             pure (realXsiType var.qname m.targetQName)
           else throw (.serializer "not derived")
         | none => do
-          let m ← Γ.fetch cls none
+          let m ← Γ.fetch cls ns none
           pure (realXsiType var.qname m.targetQName)
-    genObj e Γ cfg fuel v (some var.qname) var.nillable xt
+    genObj e Γ cfg fuel v ns (some var.qname) var.nillable xt
 
 /-- `convert_choice` -/
 def genChoice (e : BEnv) (Γ : Ctx) (cfg : SerCfg) : Nat → Val → XmlVar → Option Str → Except Err (List Ev)
@@ -357,9 +364,9 @@ def generate (e : BEnv) (Γ : Ctx) (cfg : SerCfg) (v : Val) : Except Err (List E
   | .derived qname value _ =>
     match value with
     | .obj cls _ => do
-      let m ← Γ.fetch cls none
-      genObj e Γ cfg fuel value (some qname) false (realXsiType qname m.targetQName)
+      let m ← Γ.fetch cls none none
+      genObj e Γ cfg fuel value none (some qname) false (realXsiType qname m.targetQName)
     | _ => .error (.leaked "AttributeError")
-  | _ => genObj e Γ cfg fuel v none false none
+  | _ => genObj e Γ cfg fuel v none none false none
 
 end Xs.Bind
